@@ -665,7 +665,19 @@ class Evaluator:
             for st2, ts in self.eval_args(args, st):
                 yield st2, ('fncall', name, tuple(ts))
             return
-        yield st, self.unknown(st, 'call:%s' % name, n)
+        # a free function applied to plain values (no container, no memory reached through the object): opaque and pure
+        for st2, ts in self.eval_args(args, st):
+            if all(root_of(t)[0] in ('local', 'param', 'other') and not (isinstance(t, tuple) and t and t[0] in ('fld', 'idx', 'deref', 'q', 'res'))
+                   for t in ts):
+                yield st2, ('fncall', name, tuple(ts))
+            else:
+                yield st2, self.unknown(st2, 'call:%s' % name, n)
+
+    def e_UserDefinedLiteral(self, n, st):
+        name, fid, fkind, fnode = self.callee_name(n)
+        args = n['inner'][1:]
+        for st2, ts in self.eval_args(args, st):
+            yield st2, ('fncall', name or 'literal', tuple(ts))
 
     def e_CXXMemberCallExpr(self, n, st):
         callee = self.strip(n['inner'][0])
@@ -1373,6 +1385,8 @@ class Evaluator:
 def show(t, depth=0):
     if not isinstance(t, tuple):
         return str(t)
+    if not t:
+        return '()'
     if depth > 12:
         return '...'
     k = t[0]
